@@ -186,27 +186,37 @@ impl<T: ServiceStateActions + Send> ServiceManager<T> {
                 let pid = self.service.pid().ok_or(Error::PidNotSet)?;
                 let name = self.service.name();
 
-                if self
+                match self
                     .service_control
                     .get_process_pid(&self.service.bin_path())
-                    .is_ok()
                 {
-                    if self.verbosity != VerbosityLevel::Minimal {
-                        println!("Attempting to stop {}...", name);
+                    Ok(_) => {
+                        if self.verbosity != VerbosityLevel::Minimal {
+                            println!("Attempting to stop {}...", name);
+                        }
+                        self.service_control
+                            .stop(&name, self.service.is_user_mode())?;
+                        if self.verbosity != VerbosityLevel::Minimal {
+                            println!(
+                                "{} Service {} with PID {} was stopped",
+                                "✓".green(),
+                                name,
+                                pid
+                            );
+                        }
                     }
-                    self.service_control
-                        .stop(&name, self.service.is_user_mode())?;
-                    if self.verbosity != VerbosityLevel::Minimal {
-                        println!(
-                            "{} Service {} with PID {} was stopped",
-                            "✓".green(),
-                            name,
-                            pid
-                        );
+                    Err(ServiceError::ServiceProcessNotFound(_)) => {
+                        debug!("Service {name} was already stopped");
+                        if self.verbosity != VerbosityLevel::Minimal {
+                            println!("{} Service {} was already stopped", "✓".green(), name);
+                        }
                     }
-                } else if self.verbosity != VerbosityLevel::Minimal {
-                    debug!("Service {name} was already stopped");
-                    println!("{} Service {} was already stopped", "✓".green(), name);
+                    // Not being able to look the process up is not the same as it being gone:
+                    // keep the service recorded as running rather than forgetting a live process.
+                    Err(err) => {
+                        error!("Could not determine whether {name} is running: {err}");
+                        return Err(err.into());
+                    }
                 }
 
                 self.service.on_stop().await?;
